@@ -8,7 +8,7 @@
   so the model has an answer for every byte string in both modes; `no_panic` and `depth_bound` show
   that the answer is always an ordinary one reached with bounded recursion.
 -/
-import GoSecs.Lemmas.Sml
+import GoSecs.Lemmas.SmlInv
 import GoSecs.Gen.Facts
 import GoSecs.Gen.Consts
 
@@ -118,17 +118,57 @@ theorem no_panic (O : Oracle) (strict : Bool) (input : Bytes) :
     (∀ headerOnly a d, parseOne O strict headerOnly input ≠ ⟨.panic, a, d⟩) :=
   parse_no_panic O strict input
 
-/-- **Size hints cannot make the parser reserve memory (`hint_alloc_bound`, `_partial`).**
-    Full statement: `∀ t, (parseAll O s t).alloc ≤ c · |t|` for the summed pre-allocations (with the caps
-    below c = 342 would do: ≤ 1024 bytes per list of ≥ 3 bytes, ≤ 8 bytes per value token, ≤ 1 byte per
-    byte of ASCII text).  Proved part: each individual pre-allocation is bounded by the remaining input and
-    independent of the hint — a list reserves at most `min(64, remaining/3)` slots, a strict ASCII value
-    at most the remaining bytes (numeric / boolean / binary items are sized by their actual value
-    tokens, `parseValues`).  The summation over the parse is not proved; the harness measures the
-    total allocation of the real parser against `64·|t| + 256 KiB`. -/
-theorem hint_alloc_bound_partial (size : Nat) (data : Bytes) :
+/-- **Size hints cannot make the parser reserve memory (`hint_alloc_bound`).** In both modes, for
+    every input and every entry point, the SUM of everything the parser pre-allocates (list child slots,
+    `strings.Builder.Grow` for strict ASCII, element slices of numeric / boolean / binary items) is at most
+    `1024·|t| + 1024` bytes: linear in the input, whatever the size hints say.  Proved by induction over
+    the parse with the potential `alloc + 1024·(bytes left)`, which no parser function increases (each
+    reservation is paid for by the bytes the function consumes). -/
+theorem hint_alloc_bound (O : Oracle) (strict : Bool) (input : Bytes) :
+    (parseAll O strict input).alloc ≤ 1024 * input.length + 1024 ∧
+    (∀ headerOnly, (parseOne O strict headerOnly input).alloc ≤ 1024 * input.length + 1024) :=
+  ⟨parseAll_alloc_bound O strict input, fun h => parseOne_alloc_bound O strict h input⟩
+
+/-- The per-allocation bounds the summation rests on: a list reserves at most
+    `min(64, remaining/3)` slots and a strict ASCII value at most the remaining bytes — independent of
+    the hint. -/
+theorem hint_alloc_local (size : Nat) (data : Bytes) :
     (listPrealloc size data ≤ maxListPrealloc ∧ 3 * listPrealloc size data ≤ data.length) ∧
     asciiPrealloc size data ≤ data.length :=
   ⟨⟨(listPrealloc_le size data).1, (listPrealloc_le size data).2.1⟩, (asciiPrealloc_le size data).1⟩
+
+/-- **Error offsets are never clamped (`error_offset_unclamped`).** Every syntax error the parser
+    reports carries the raw offset it computed, and that offset lies within `[0, len(input)]`: the
+    parser's scan window never leaves the input (invariant `pos + len(data) = len(input)` through every
+    parser function, including the `backward(1)` after a look-ahead at the end of the input), so the
+    clamp in `newParseError` is dead code and `Offset`, `Line`, `Col` describe the true position. -/
+theorem error_offset_unclamped (O : Oracle) (strict : Bool) (input : Bytes) (p : Pos) (a d : Nat)
+    (h : parseAll O strict input = ⟨.syntax p, a, d⟩) :
+    ∃ off, off ≤ input.length ∧ p = newParseError input off ∧ p.offset = off :=
+  parseAll_offset_in_input O strict input p a d h
+
+/-- **`fuel_suffices`.** The model recurses on a fuel, so totality is definitional; this theorem
+    shows the fuel is never what decides the result.  `parseItem` on `n` remaining bytes needs at most
+    `2n+1` units and `parseList` at most `2n+2` — with any two fuels above that they return the same
+    item / error / counters; the body parser is started with exactly `2·(bytes left)+1`, and the message
+    loop of `Parse` with `len(input)+1` steps, which any larger number reproduces. -/
+theorem fuel_suffices (O : Oracle) (strict : Bool) :
+    (∀ (st : St) (depth f : Nat), 2 * st.data.length + 1 ≤ f →
+      parseItem O strict f depth st = parseItem O strict (2 * st.data.length + 1) depth st) ∧
+    (∀ (st : St) (depth : Nat) (acc : List Item) (f1 f2 : Nat), 2 * st.data.length + 2 ≤ f1 → 2 * st.data.length + 2 ≤ f2 →
+      parseList O strict f1 depth acc st = parseList O strict f2 depth acc st) ∧
+    (∀ (input : Bytes) (f : Nat), input.length + 1 ≤ f →
+      parseLoop O strict f [] (initSt input) = parseLoop O strict (input.length + 1) [] (initSt input)) :=
+  ⟨fun st depth f h => fuel_suffices_body O strict st depth f h,
+   fun st depth acc f1 f2 h1 h2 => (fuel_indep O strict st.data.length).2 st depth acc f1 f2 (Nat.le_refl _) h1 h2,
+   fun input f h => parseLoop_fuel_suffices O strict input f h⟩
+
+/-
+  Not proved: `steps_quadratic_bound` (model step count ≤ c·|t|²).  The model has no step counter; the
+  ingredients are here — every `parseItem` activation consumes its own `<` (`ItemOk`), so there are at
+  most |t| of them and at most 2|t| list-loop iterations (`fuel_suffices`), and each does a bounded number
+  of linear scans of the remaining input — but the scans are not instrumented.  Time is observed on the
+  implementation (five super-linear shapes, wide margin) by the harness.
+-/
 
 end GoSecs.Props.C14
